@@ -493,6 +493,6 @@ pub fn def() -> PropDef {
             "liveness is decided up to a horizon of 60 virtual minutes",
             "a dropped essential peer is reachable again (the harness reconnects it, as a tracker would hand it out again)",
         ],
-        subs: vec![swarm_sub()],
+        subs: vec![swarm_sub(), crate::e2e::c02_process_sub()],
     }
 }
